@@ -223,6 +223,14 @@ def rule(ctx, crate, rule_id, paths, with_returns=True, panicking_only=False):
         has_src = any_enum or any(last_seg(c) == "count" and "Chars" in c for bb, t, c in b.calls()) or any(
             ((b.callee_info(t) or {}).get("resolved") or c) in ret_char for bb, t, c in b.calls())
         if not has_src:
+            if with_returns and p in BYTE_RETURNS:
+                # no character counter at all in a function that must return a byte offset (positions taken from
+                # char_indices() / len() / find()): the obligation is met by construction, and still counted
+                ctx.analysed(b)
+                for bi, e in returns(b):
+                    n += 1
+                    ctx.ob(rule_id, p, "return value (%s): no character count exists in the function to be confused with it" %
+                           BYTE_RETURNS[p][:60], True, where=b.loc(bi), crate=crate.kind, nontrivial=False)
             continue
         ctx.analysed(b)
         sinks = byte_sinks(b, param_byte)
